@@ -19,7 +19,7 @@ from rig.machine_control.packets import SDPPacket, SCPPacket
 H = ["reply_expected", "tag", "dest_port", "dest_cpu", "src_port", "src_cpu", "dest_x", "dest_y",
      "src_x", "src_y"]
 S = ["cmd_rc", "seq", "arg1", "arg2", "arg3"]
-MOD = 1000000007
+MASK = (1 << 61) - 1
 
 
 def mk_sdp(p):
@@ -61,7 +61,7 @@ def dec(cls, show, bs, *n):
 
 def digest(h, bs):
     for b in bs:
-        h = (h * 257 + b + 1) % MOD
+        h = (h * 257 + b + 1) & MASK
     return h
 
 
@@ -83,7 +83,7 @@ def run_case(c):
         for v in range(c[3], c[4]):
             q[c[1]] = v
             r = enc(mk_scp(q))
-            h = digest(h, r[1]) if r[0] == "ok" else (h * 257 + 300) % MOD
+            h = digest(h, r[1]) if r[0] == "ok" else (h * 257 + 300) & MASK
         return ["digest", h]
     if k == "sweep16dec":
         h = 0
@@ -91,7 +91,7 @@ def run_case(c):
         for v in range(c[3], c[4]):
             bs[c[1]], bs[c[1] + 1] = v & 255, v >> 8
             r = dec(SCPPacket, show_scp, bs, 3)
-            h = digest(h, r[1][11:13]) if r[0] == "ok" else (h * 257 + 300) % MOD
+            h = digest(h, r[1][11:13]) if r[0] == "ok" else (h * 257 + 300) & MASK
         return ["digest", h]
     if k == "sweep16raw":
         # for the oracle: the encoding (hex) of every packet of the sweep, and True when decoding it with
